@@ -519,12 +519,16 @@ def check(ctx):
     ctx.assume("user-supplied batch reductions are sign-preserving (shipped defaults: torch.mean / torch.sum)")
     ctx.assume("receptive-field reshapes (postsyn_receptive, presyn_receptive, like_bias) only rearrange elements")
     ctx.assume("spike tensors are {0,1}-valued")
+    # ---------------- (f) the (potentiating, depressing) split of every reward-modulated trainer, as a decision tree
+    from .. import reward_tail
+    reward_tail.check(ctx, "C09.f")
+    # ---------------- (g) the accumulators the parts are handed to (shared with C10) and the pooled traces they are computed from (C15.f)
+    ctx.import_clauses("C10", {"C10.t", "C10.a", "C10.b"}, "C09.g", pick=lambda s: s.startswith(("Updater", "Accumulator")), minimum=6)
+    ctx.import_clauses("C15", {"C15.f"}, "C09.h", minimum=10)
+
 
 
 def _tree_sign(t, assume):
     if t[0] == "leaf":
         return nf.sign_of(t[1], assume)
     return nf._join(_tree_sign(t[2], assume), _tree_sign(t[3], assume))
-    # ---------------- (f) the (potentiating, depressing) split of every reward-modulated trainer, as a decision tree
-    from .. import reward_tail
-    reward_tail.check(ctx, "C09.f")
